@@ -743,6 +743,12 @@ func (t *Terms) stepCall(x ssa.CallInstruction, m *memState) {
 			return
 		}
 	}
+	if isVal && f != nil && t.w.InRepo(f) {
+		if term, ok := t.inlineValue(x, f, m); ok {
+			t.val[v] = term
+			return
+		}
+	}
 	if isVal {
 		term := t.callTerm(x)
 		// a pure function of a slice depends on the slice's elements: version the term by the
@@ -1292,4 +1298,76 @@ func addOne(x string) string {
 		return fmt.Sprintf("%s+%d", m[1], p+1)
 	}
 	return x + "+1"
+}
+
+// Value helpers. A call of a small repo function that has no side effects, a single block
+// and one result (`func (p *Parser) curInt() int { n, _ := strconv.ParseInt(p.cur.Literal, 0, 64); return int(n) }`)
+// denotes the helper's own result term with its parameters replaced by the arguments, field
+// paths below a parameter being read in the caller's memory at the call. An expression and
+// the same expression moved into a named helper thus have the same term.
+var tagRe = regexp.MustCompile(`![A-Za-z]`)
+
+var valueTmplCache = map[*ssa.Function]*string{}
+
+func (t *Terms) valueTemplate(f *ssa.Function) (string, bool) {
+	if p, ok := valueTmplCache[f]; ok {
+		if p == nil {
+			return "", false
+		}
+		return *p, true
+	}
+	valueTmplCache[f] = nil
+	if len(f.Blocks) != 1 || isOpaquePred(f) || f.Signature.Results().Len() != 1 {
+		return "", false
+	}
+	if t.purity(f) < purReadOnly {
+		return "", false
+	}
+	ins := f.Blocks[0].Instrs
+	ret, ok := ins[len(ins)-1].(*ssa.Return)
+	if !ok || len(ret.Results) != 1 {
+		return "", false
+	}
+	for _, in := range ins {
+		switch in.(type) {
+		case *ssa.Defer, *ssa.Go, *ssa.MakeClosure, *ssa.Alloc, *ssa.Store:
+			return "", false
+		}
+	}
+	tf := t.w.TermsOf(f, t.eff)
+	rt := tf.Term(ret.Results[0])
+	bare := quotedRe.ReplaceAllString(rt, `""`)
+	if strings.Contains(bare, "@") || tagRe.MatchString(bare) || strings.Contains(bare, "phi(") || strings.Contains(bare, "mu(") || strings.Contains(bare, "new#") || !strings.Contains(bare, "$") {
+		return "", false
+	}
+	valueTmplCache[f] = &rt
+	return rt, true
+}
+
+func (t *Terms) inlineValue(x ssa.CallInstruction, f *ssa.Function, m *memState) (string, bool) {
+	if x.Common().IsInvoke() {
+		return "", false
+	}
+	tmpl, ok := t.valueTemplate(f)
+	if !ok {
+		return "", false
+	}
+	args := x.Common().Args
+	good := true
+	out := paramPathRe.ReplaceAllStringFunc(tmpl, func(mm string) string {
+		sm := paramPathRe.FindStringSubmatch(mm)
+		k, _ := strconv.Atoi(sm[1])
+		if k >= len(args) {
+			good = false
+			return mm
+		}
+		term := t.Term(args[k])
+		if sm[2] != "" {
+			for _, fld := range strings.Split(sm[2][1:], ".") {
+				term = t.lookup(term+"."+fld, m)
+			}
+		}
+		return term
+	})
+	return out, good
 }
